@@ -134,12 +134,14 @@ def viaConstruct (r : Req) : Option (List Nat) :=
 /-- is this case an instance of the hypotheses of `C02_song_roundtrip_partial` /
 `C03_song_wellformed_partial`: song in the fragment (with the drum routines the constructor registered
 being routine tracks of the fragment, and every loop section ending in the drum-mode state it starts
-in), no platform commands defined, the constructor model accepts and its chunk (= the real bytes
+in), the platform commands defined are ones the theorems cover and the timeline reads them as the
+converter does (`Fragment.platAgreeB`), the constructor model accepts and its chunk (= the real bytes
 `seq`) is shorter than 64 KiB -/
 def provedInstance (r : Req) (seq : List Nat) : Bool :=
   match MdsFile.construct r.song r.data (r.volume.map toString) with
   | .ok b =>
-    Fragment.inFragment r.song b.conv.subMap && r.data.platform.isEmpty && b.seq == seq && decide (seq.length < 65536)
+    Fragment.inFragment r.song b.conv.subMap && Fragment.platAgreeB r.data.platform r.platformSpec && b.seq == seq &&
+      decide (seq.length < 65536)
   | .error _ => false
 
 /-- C02 oracle: every channel's bytes, interpreted by the MDSDRV sequence rules, give the tick
